@@ -106,6 +106,8 @@ type PageGeom struct {
 	MT, MR, MB, ML         float64 // margins
 	ContentBottom          float64 // y of the bottom edge of the page content box
 	MaxLineBottom          float64 // lowest bottom edge among main-flow line boxes
+	MaxBlockBottom         float64 // lowest margin-box bottom among in-flow block-level boxes of elements (not html/body)
+	FootnoteTop            float64 // top of the footnote area if the page has footnotes, else 0
 	FirstWord              string  // first main-flow word on the page
 	PageType               string
 }
